@@ -33,6 +33,7 @@ type c17cSer struct {
 	desOutcomes []int // per call: 0 ok, 1 invalid-UTF-8 error, 2 other error
 	desCalls    int
 	decoded     [][]*historypb.HistoryEvent // what each successful decode returned
+	evType      enumspb.EventType // type of the decoded events (a type on the namespace skip list, or unspecified)
 	serFail     bool
 	serCalls    int
 	encodedFrom []*historypb.HistoryEvent
@@ -52,7 +53,7 @@ func (s *c17cSer) DeserializeEvents(b *commonpb.DataBlob) ([]*historypb.HistoryE
 	case 2:
 		return nil, c17cOtherErr()
 	}
-	evs := []*historypb.HistoryEvent{{EventId: int64(10 + i)}}
+	evs := []*historypb.HistoryEvent{{EventId: int64(10 + i), EventType: s.evType}}
 	s.decoded = append(s.decoded, evs)
 	return evs, nil
 }
@@ -100,6 +101,12 @@ func verifHarness_C17_blobFlow() {
 	serializer = ser
 	gogoSerializer = ser122
 
+	// the visitor decides what it skips; the blob flow itself hands every decoded batch to it (the same
+	// flow serves the namespace visitor, the allow-list and the search-attribute visitor)
+	if verifChoose("decoded-event-type", 2) == 1 {
+		ser.evType = enumspb.EVENT_TYPE_TIMER_STARTED
+		verifReach("decoded-events-of-a-skip-listed-type")
+	}
 	first := verifChoose("decode", 3) // 0 ok, 1 invalid UTF-8, 2 other error
 	ser.desOutcomes = []int{first, verifChoose("decode-after-repair", 3)}
 	ser.serFail = verifChoose("encode", 2) == 1
